@@ -188,7 +188,9 @@ def opts_src(P):
     t = P["kind"]["try"]
     parts = {}
     if o.get("path", "default") == "custom":
-        parts["path"] = "futures_crate_path(::futures)"
+        # a re-export under another path; crates holding such programs have no dependency called `futures` (write_workspace),
+        # so every path the expansion emits must go through the option
+        parts["path"] = "futures_crate_path(::rt::fx)"
     j = o.get("joiner", "none")
     if j != "none":
         if a:
@@ -272,8 +274,7 @@ path = "src/main.rs"
 join = {{ path = "{repo}/join" }}
 rt = {{ path = "{verif}/harness/rt"{rtfeat} }}
 serde_json = "1.0"
-futures = "0.3.0"
-tokio = {{ version = "1.0.1", features = ["full"] }}
+{futdep}tokio = {{ version = "1.0.1", features = ["full"] }}
 """
 
 WS_TOML = """[workspace]
@@ -302,7 +303,9 @@ def write_workspace(ws_dir, crates):
         d = os.path.join(ws_dir, cname, "src")
         os.makedirs(d)
         with open(os.path.join(ws_dir, cname, "Cargo.toml"), "w") as f:
-            f.write(CARGO_TOML.format(name=cname, repo=REPO, verif=VERIF, rtfeat=', features = ["nosend"]' if BOUNDS else ""))
+            nofut = all(P.get("opts", {}).get("path", "default") == "custom" for _, P in progs)
+            f.write(CARGO_TOML.format(name=cname, repo=REPO, verif=VERIF, rtfeat=', features = ["nosend"]' if BOUNDS else "",
+                                      futdep="" if nofut else 'futures = "0.3.0"\n'))
         lines = ["#![allow(clippy::all)]", '#![recursion_limit = "1024"]', "#[allow(unused_imports)]", "use join::*;",
                  "#[allow(unused_imports)]", "use rt::Dot;", "use serde_json::Value;", ""]
         sp = {}
@@ -323,7 +326,7 @@ def write_workspace(ws_dir, crates):
 def cargo_build(ws_dir, jobs=None):
     """Builds the workspace; returns (ok, diagnostics) where diagnostics is a list of
     (crate, line, rendered message) for errors."""
-    cmd = ["cargo", "build", "--offline", "--message-format=json"]
+    cmd = ["cargo", "build", "--offline", "--keep-going", "--message-format=json"]
     if jobs:
         cmd += ["-j", str(jobs)]
     env = dict(os.environ, RUST_BACKTRACE="0", CARGO_TERM_COLOR="never")
